@@ -19,7 +19,7 @@ PROPS = {
              coq=('Proofs/Ledger.v', 'Proofs/Reserve.v', 'Proofs/ClaimLedger.v', 'Proofs/VestedCover.v', 'Proofs/VestedLifecycle.v', 'Proofs/SetupVested.v', 'Proofs/SetupCover.v', 'Proofs/CoverSteps.v')),
     'C03': P('number and identity of winners after base selection and after the additional step',
              eps=('select', 'extra'), cats=('ret', 'status'), views=('nrWinning', 'winIds', 'totalTickets'),
-             coq=('Proofs/Shuffle.v', 'Proofs/Select.v', 'Proofs/GuaranteedLoop.v', 'Proofs/Leftover.v')),
+             coq=('Proofs/Shuffle.v', 'Proofs/Select.v', 'Proofs/GuaranteedLoop.v', 'Proofs/Leftover.v', 'Proofs/SetupCover.v', 'Proofs/SetupVested.v')),
     'C04': P('run_while split law lifted to every resumable endpoint; seeds consumed only by the first call',
              eps=SEL, cats=('ret', 'status'), rng=True, views=('flags',), coq=('Proofs/Loop.v', 'Proofs/Resume.v', 'Proofs/Resume2.v', 'Proofs/Resume3.v', 'Proofs/Resume4.v', 'Proofs/Interleave.v', 'Proofs/InterleaveGt.v', 'Proofs/InterleaveNft.v', 'Proofs/LifecycleNoisy.v')),
     'C05': P('sparse Fisher-Yates refines the textbook algorithm; bijection; word stream of the rng',
